@@ -54,7 +54,7 @@ def sha(s):
 # ----------------------------------------------------------------------------- directives
 
 DIRECTIVE_RE = re.compile(r'/\*@(\s*extract(?:-stmts)?\b.*?)@\*/', re.S)
-SECTION_RE = re.compile(r'^(requires|ensures|decreases|loop\s+\d+|closure\s+\d+|before\s+`.*`|after\s+`.*`|blockend\s+`.*`|opens_invariants.*|no_unwind.*)\s*$')
+SECTION_RE = re.compile(r'^(requires|ensures|decreases|loop\s+\d+|closure\s+(?:\d+|\*)|before\s+`.*`|after\s+`.*`|blockend\s+`.*`|opens_invariants.*|no_unwind.*)\s*$')
 
 
 class Directive:
@@ -114,7 +114,7 @@ def parse_directive(text, line):
         elif cur.startswith('loop'):
             d.loops[int(cur.split()[1])] = body
         elif cur.startswith('closure'):
-            d.closures[int(cur.split()[1])] = body
+            d.closures[cur.split()[1] if cur.split()[1] == '*' else int(cur.split()[1])] = body
         elif cur.startswith('before') or cur.startswith('after') or cur.startswith('blockend'):
             where, pat = cur.split(None, 1)
             d.inserts.append((where, pat.strip().strip('`'), body))
@@ -584,6 +584,14 @@ def find_closures(body):
 def annotate_closures(body, specs, what, log):
     cl = find_closures(body)
     edits = []
+    if '*' in specs:
+        # `closure *`: the same annotation on every closure of the body (at least one) that has no own section
+        if not cl:
+            raise LostAnchor(f'{what}: closure * but the body has no closure')
+        star = specs['*']
+        specs = dict((k, v) for k, v in specs.items() if k != '*')
+        for k in range(len(cl)):
+            specs.setdefault(k, star)
     for k, txt in specs.items():
         if k >= len(cl):
             raise LostAnchor(f'{what}: closure {k} not found (body has {len(cl)} closures)')
